@@ -580,7 +580,9 @@ func (r *runner) createTasks(ctx context.Context, nodeMap map[string]any, optMap
 		}
 
 		nextTasks = append(nextTasks, &task{
-			ctx:     forwardCheckPoint(setNodeKey(ctx, nodeKey), nodeKey),
+			// a newly scheduled execution starts fresh: only tasks restored from a checkpoint
+			// (restoreTasks) continue from the nested checkpoint of their node
+			ctx:     setCheckPointToCtx(setNodeKey(ctx, nodeKey), nil),
 			nodeKey: nodeKey,
 			call:    call,
 			input:   nodeInput,
